@@ -32,7 +32,7 @@ def run(prog, rep):
     from rules import definite_init
     definite_init.check(prog, rep, 'R2.10')
     from rules import encoded_reader
-    encoded_reader.check(prog, rep, ids={'R13.6': 'R2.8', 'R13.7': 'R2.9'})     # window memory safety; progress at end of file (no hang)
+    encoded_reader.check(prog, rep, ids={'R13.6': 'R2.8', 'R13.7': 'R2.9', 'R13.12': 'R2.12'})     # window memory safety; progress at end of file (no hang)
     # ---------------------------------------------------------------- R2.1
     def load_side(f):
         c = strip_targs(f.cls).rsplit('::', 1)[-1]
